@@ -197,7 +197,7 @@ func c18Units(thorough bool) []*explore.Unit {
 		{"direct+cancelled-midflight", []callSpec{{Kind: "get", Key: "k0", SkipBatch: true}, {Kind: "get", Key: "k1", SkipBatch: true}}, rigCfg{QueueSize: 1}, 1},
 		{"1cancelled-midflight", []callSpec{{Kind: "get", Key: "k0", SkipBatch: true}}, rigCfg{QueueSize: 1}, 0},
 	}
-	if thorough {
+	{
 		mixes = append(mixes,
 			mix{"multi2+direct", []callSpec{{Kind: "get", Key: "k0"}, {Kind: "put", Key: "k1"}, {Kind: "get", Key: "k2", SkipBatch: true}}, rigCfg{QueueSize: 2}, -1},
 			mix{"multi-timer+cancel", []callSpec{{Kind: "get", Key: "k0"}, {Kind: "get", Key: "k1"}}, rigCfg{QueueSize: 3, Flush: 10 * time.Millisecond}, 0})
@@ -208,7 +208,7 @@ func c18Units(thorough bool) []*explore.Unit {
 			p := c18Params{mix: m.name, calls: m.calls, cfg: m.cfg, srvMode: mode, cancelMid: m.canc}
 			out := &c18Obs{}
 			units = append(units, &explore.Unit{
-				Name: fmt.Sprintf("%s|srv=%s", m.name, mode), Bound: 2, Opt: vrt.Options{MaxSteps: 20000},
+				Name: fmt.Sprintf("%s|srv=%s", m.name, mode), Bound: c18Bound(thorough, len(m.calls)), Opt: vrt.Options{MaxSteps: 20000},
 				Body: c18Body(p, out), Check: c18Check(p, out),
 				Sig: func() string {
 					var sb strings.Builder
@@ -233,4 +233,11 @@ func init() {
 		Quick:       100 * time.Second, Thorough: 15 * time.Minute,
 		Units: c18Units,
 	})
+}
+
+func c18Bound(thorough bool, calls int) int {
+	if thorough && calls <= 2 {
+		return 3
+	}
+	return 2
 }
